@@ -13,8 +13,9 @@
              Ignored or unchanged, cells that are not characters, zero-width
              characters; otherwise Face (if different from the tracked face),
              CursorTo (if different from the tracked cursor), then either a run
-             of blanks (EraseChars when longer than 4, which does not move the
-             cursor) or the character (advancing by its width).
+             of blanks (EraseChars when longer than 4 and the face has no underline,
+             strike or reverse attribute; it does not move the cursor) or the
+             character (advancing by its width).
      pass 3  every recorded image: Face, erase the rows of its rectangle,
              CursorTo, Image.
      then    back := front (glyphs resolved), front := default, marks := Empty.
@@ -58,21 +59,28 @@ Definition fill_extent (o : oracle) (m : grid mark) (x : cell) (r c : nat) (v : 
 Definition is_damaged (m : option mark) : bool :=
   match m with Some MDamaged => true | _ => false end.
 
+Definition is_ignored (m : option mark) : bool :=
+  match m with Some MIgnored => true | _ => false end.
+Definition is_char (x : cell) : bool := match ckind x with KChar _ => true | _ => false end.
+
 Definition pass1_step (o : oracle) (old_g : grid cell) (st : p1) (p : nat * nat) : p1 :=
   let '(r, c) := p in
   match gget old_g r c, gget (p1_front st) r c with
   | Some old, Some new0 =>
       let new := resolve o new0 in
       let front' := gset (p1_front st) r c new in
-      if cell_eqb old new && negb (is_damaged (gget (p1_marks st) r c))
-      then mkp1 (fill_extent o (p1_marks st) new r c MIgnored) front' (p1_cmds st) (p1_imgs st)
+      let mk := gget (p1_marks st) r c in
+      (* a character that is itself covered does not own the columns behind it *)
+      let new_mark := if is_ignored mk && is_char new then MDamaged else MIgnored in
+      if cell_eqb old new && negb (is_damaged mk)
+      then mkp1 (fill_extent o (p1_marks st) new r c new_mark) front' (p1_cmds st) (p1_imgs st)
       else
         let m1 := fill_extent o (p1_marks st) old r c MDamaged in
         let cmds1 := match ckind old with
                      | KImg i => CImageErase i (Some (r, c)) :: p1_cmds st
                      | _ => p1_cmds st
                      end in
-        let m2 := fill_extent o m1 new r c MIgnored in
+        let m2 := fill_extent o m1 new r c new_mark in
         let imgs := match ckind new with
                     | KImg i => (r, c, cface new, i) :: p1_imgs st
                     | _ => p1_imgs st
@@ -88,7 +96,8 @@ Definition pass1 (o : oracle) (s : rstate) : p1 :=
 (* ---------- pass 2: what is painted ---------- *)
 Inductive paint :=
 | PChar (r c : nat) (f : face) (ch : N)        (* one character of width cw ch *)
-| PBlanks (r c : nat) (f : face) (n : nat).    (* n blank cells *)
+| PBlanks (r c : nat) (f : face) (n : nat)     (* n blank cells of face f *)
+| PErase (r c : nat) (f : face) (n : nat).     (* n cells erased under face f (pass 3; never produced by pass 2) *)
 
 (* number of following cells that continue a run of blanks started by [x] *)
 Fixpoint blank_run (x : cell) (news : list cell) (ms : list mark) : nat :=
@@ -140,15 +149,16 @@ Definition cur_known (t : tracked) (r c : nat) : bool :=
   match tcur t with Some (r', c') => Nat.eqb r r' && Nat.eqb c c' | None => false end.
 
 Definition emit (o : oracle) (t : tracked) (p : paint) : list cmd * tracked :=
-  let '(r, c, f) := match p with PChar r c f _ => (r, c, f) | PBlanks r c f _ => (r, c, f) end in
+  let '(r, c, f) := match p with PChar r c f _ | PBlanks r c f _ | PErase r c f _ => (r, c, f) end in
   let pre := (if face_known t f then [] else [CFace f])
              ++ (if cur_known t r c then [] else [CCursorTo r c]) in
   match p with
   | PChar _ _ _ ch => (pre ++ [CChar ch], mktracked (Some f) (Some (r, c + cw o ch)))
   | PBlanks _ _ _ n =>
-      if 4 <? n
+      if (4 <? n) && erasable o f
       then (pre ++ [CEraseChars n], mktracked (Some f) (Some (r, c)))
       else (pre ++ repeat (CChar space) n, mktracked (Some f) (Some (r, c + n)))
+  | PErase _ _ _ n => (pre ++ [CEraseChars n], mktracked (Some f) (Some (r, c)))
   end.
 
 Fixpoint emit_all (o : oracle) (t : tracked) (ps : list paint) : list cmd :=
@@ -158,8 +168,16 @@ Fixpoint emit_all (o : oracle) (t : tracked) (ps : list paint) : list cmd :=
   end.
 
 (* ---------- pass 3 ---------- *)
+(* render.rs "Render images": Face, for every row of the image CursorTo + EraseChars(width),
+   then CursorTo + Image.  (Written out here, not shared with the naive painter of Screen.v;
+   ExecProofs.image_cmds_paint_image shows that the two coincide.) *)
+Definition image_cmds (o : oracle) (r c : nat) (f : face) (i : N) : list cmd :=
+  CFace f
+  :: flat_map (fun row => [CCursorTo row c; CEraseChars (snd (isz o i))]) (seq r (fst (isz o i)))
+  ++ [CCursorTo r c; CImage i r c].
+
 Definition pass3 (o : oracle) (imgs : list (nat * nat * face * N)) : list cmd :=
-  flat_map (fun '(r, c, f, i) => paint_image o r c f i) imgs.
+  flat_map (fun '(r, c, f, i) => image_cmds o r c f i) imgs.
 
 (* ---------- frame / clear / surface reset ---------- *)
 Definition frame (o : oracle) (s : rstate) : list cmd * rstate :=
@@ -175,9 +193,11 @@ Definition erase_images_row (r : nat) (cells : list cell) : list cmd :=
                            | _ => []
                            end) cells).
 
+(* clear(): erase the images the terminal shows, forget the terminal state (back buffer) and mark
+   everything Damaged; what was already drawn into the front buffer stays *)
 Definition rclear (s : rstate) : list cmd * rstate :=
   (concat (mapi erase_images_row (back s)),
-   mkrstate (rh s) (rw s) (gmake (rh s) (rw s) cell_default) (gmake (rh s) (rw s) cell_default)
+   mkrstate (rh s) (rw s) (front s) (gmake (rh s) (rw s) cell_default)
             (gmake (rh s) (rw s) MDamaged)).
 
 (* renderer.surface().clear(): the application dropped the frame it was drawing *)
@@ -194,7 +214,10 @@ Inductive op :=
 | Frame                  (* renderer.frame(term) *)
 | SkipFrame              (* renderer.surface().clear(), no frame *)
 | Clear                  (* renderer.clear(term) *)
-| Renew.                 (* renderer.clear(term); renderer = TerminalRenderer::new(term, true)  (terminal.rs, resize path) *)
+| Renew                  (* renderer.clear(term); renderer = TerminalRenderer::new(term, true)  (terminal.rs, resize path) *)
+| Resize (h w : nat) (g : grid scell).
+                         (* the same after the terminal was resized to h x w and now shows g (an arbitrary screen:
+                            what a terminal shows after a resize is its own business) *)
 
 Definition rstep (o : oracle) (s : rstate) (x : op) : list cmd * rstate :=
   match x with
@@ -203,6 +226,7 @@ Definition rstep (o : oracle) (s : rstate) (x : op) : list cmd * rstate :=
   | SkipFrame => ([], rskip s)
   | Clear => rclear s
   | Renew => (fst (rclear s), rnew (rh s) (rw s) true)
+  | Resize h w _ => (fst (rclear s), rnew h w true)
   end.
 
 (* the command lists issued op by op *)
